@@ -180,10 +180,10 @@ def run(cfg, H):
         if cfg['dir'] == 'fwd':
             fn = lambda f: prop.focus_fixed_sampling(f, dx, efl, wvl, odx, (M, N), shift=(sx, sy), method=cfg['engine'])   # noqa
             direct = lambda f: (ft.mdft.dft2 if cfg['engine'] == 'mdft' else ft.czt.czt2)(   # noqa
-                f, prop.Q_for_sampling(m * dx, efl, wvl, odx), (M, N), (sx / odx, sy / odx))
+                f, (prop.Q_for_sampling(m * dx, efl, wvl, odx), prop.Q_for_sampling(n * dx, efl, wvl, odx)), (M, N), (sx / odx, sy / odx))
         else:
             fn = lambda f: prop.unfocus_fixed_sampling(f, dx, efl, wvl, odx, (M, N), shift=(sx, sy), method=cfg['engine'])   # noqa
-            Q = prop.Q_for_sampling(max(odx * M, odx * N), efl, wvl, dx) / (H.frac(m) / M)
+            Q = (prop.Q_for_sampling(odx * M, efl, wvl, dx) / (H.frac(m) / M), prop.Q_for_sampling(odx * N, efl, wvl, dx) / (H.frac(n) / N))
             direct = lambda f: (ft.mdft.idft2 if cfg['engine'] == 'mdft' else ft.czt.iczt2)(f, Q, (M, N), (sx / odx, sy / odx))   # noqa
         C = H.linear_map(fn, (m, n))
         ft.mdft.clear()
